@@ -316,5 +316,6 @@ func main() {
 	defer w.Flush()
 	for in.Scan() {
 		fmt.Fprintln(w, handle(in.Text()))
+		w.Flush() // the check keeps one harness process and talks to it in batches
 	}
 }
